@@ -47,7 +47,7 @@ Proof. exact (rename_sound tys tys_eqb tys_eqb_spec hint order order_perm). Qed.
 Theorem C11_rename_avoids_reserved : forall pre res (a d : bool) calls sf ms,
   Forall (fun c => ~ In (fst c) res) calls ->
   run a d pre res calls = AOk sf ms ->
-  reserved sf = res /\
+  incl res (reserved sf) /\
   (forall m, In m (map fst (tbl sf)) -> ~ In m res) /\
   (forall m, In m ms -> ~ In m res).
 Proof. exact (rename_avoids_reserved tys tys_eqb tys_eqb_spec hint order order_perm). Qed.
@@ -76,12 +76,40 @@ Proof. exact (new_name_fresh tys hint). Qed.
 Theorem C11_new_name_terminates : forall (s : tm tys) q, exists n, new_name tys hint s q = Some n.
 Proof. exact (new_name_terminates tys hint). Qed.
 
-(* several plugins (any type relation, any order): the package is accepted iff every plugin's
-   own call list is, so the per-plugin theorems above decide the whole package *)
-Theorem C11_add_pkg_accepts_iff : forall (teq : tys -> tys -> bool) calls st,
-  (exists st' ms, add_pkg tys teq hint order st calls = POk st' ms) <->
-  (forall p, exists sf ms, add_all tys teq hint order (st p) (proj tys p calls) = AOk sf ms).
-Proof. exact (fun teq => add_pkg_accepts_iff tys teq hint order). Qed.
+(* ---- the whole package: one typesMap per plugin, calls dispatched by plugin, ONE reserved
+   set shared by all of them (every registration is recorded in it) ---- *)
+Notation prun a d pre res calls := (add_pkg tys tys_eqb hint order (pinit tys pre res a d) calls).
+
+Theorem C11_pkg_noflag_exact : forall pre res calls,
+  perr tys (prun false false pre res calls) = true <->
+  pkg_conflict tys calls \/ pkg_dup tys calls.
+Proof. exact (pkg_noflag_exact tys tys_eqb tys_eqb_spec hint order order_perm). Qed.
+
+Theorem C11_pkg_autoname_only_dups_fail : forall pre res (a : bool) calls,
+  ~ pkg_conflict tys calls ->
+  (perr tys (prun a false pre res calls) = true <-> pkg_dup tys calls).
+Proof. exact (pkg_autoname_only_dups_fail tys tys_eqb tys_eqb_spec hint order order_perm). Qed.
+
+Theorem C11_pkg_dedup_only_conflicts_fail : forall pre res (d : bool) calls,
+  ~ pkg_dup tys calls ->
+  (perr tys (prun false d pre res calls) = true <-> pkg_conflict tys calls).
+Proof. exact (pkg_dedup_only_conflicts_fail tys tys_eqb tys_eqb_spec hint order order_perm). Qed.
+
+Theorem C11_pkg_both_flags_accept : forall pre res calls,
+  exists sf ms, prun true true pre res calls = POk sf ms.
+Proof. exact (pkg_both_flags_accept tys tys_eqb tys_eqb_spec hint order order_perm). Qed.
+
+Theorem C11_pkg_rename_sound : forall pre res (a d : bool) calls sf ms,
+  prun a d pre res calls = POk sf ms ->
+  (forall p, Bij (tbl (sf p))) /\ List.length ms = List.length calls /\
+  (forall c m, In (c, m) (combine calls ms) -> lookup (tbl (sf (fst c))) m = Some (snd (snd c))) /\
+  ((forall c, In c calls -> ~ In (fst (snd c)) res) ->
+   forall p m, In m (map fst (tbl (sf p))) -> ~ In m res).
+Proof. exact (pkg_rename_sound tys tys_eqb tys_eqb_spec hint order order_perm). Qed.
+
+Theorem C11_pkg_no_fuel : forall pre res (a d : bool) calls i,
+  prun a d pre res calls <> PErr i SFuel.
+Proof. exact (pkg_no_fuel tys tys_eqb tys_eqb_spec hint order order_perm). Qed.
 End C11.
 
 Print Assumptions C11_noflag_exact.
@@ -95,4 +123,9 @@ Print Assumptions C11_rename_needs_flag.
 Print Assumptions C11_add_all_no_fuel.
 Print Assumptions C11_new_name_fresh.
 Print Assumptions C11_new_name_terminates.
-Print Assumptions C11_add_pkg_accepts_iff.
+Print Assumptions C11_pkg_noflag_exact.
+Print Assumptions C11_pkg_autoname_only_dups_fail.
+Print Assumptions C11_pkg_dedup_only_conflicts_fail.
+Print Assumptions C11_pkg_both_flags_accept.
+Print Assumptions C11_pkg_rename_sound.
+Print Assumptions C11_pkg_no_fuel.
